@@ -86,12 +86,11 @@ theorem C05_matrix_wf (rn : ℚ → ℚ) (hrn : RN53 rn) (g k r N1 seed : Nat) (
 
 
 /-- **Every accepted LDPC-Staircase configuration yields a session that meets the hypotheses of the decoder theorems** (C01, C03, C04,
-C10, C11): if `of_set_fec_parameters` (session model) returns OK, the session has n−k equations, duplicate-free, within 0..n−1, none with a
-single entry, staircase shaped, and its decoder state is initialised for k source symbols.  `GoodRand CSem.rne53` says that the rounding
-function the executable model uses behaves like the binary64 standard model on the generator's expression (`C05_goodRand` proves it for
-every operator satisfying `RN53`; the executable one is compared with the compiled C on millions of states by the C19 check). -/
-theorem C05_configured_session {σ : Type} (IO : Api.SymIO σ) (hgood : RfcWF.GoodRand CSem.rne53) (g : Nat) (s : Api.Session σ)
+C10, C11): if `of_set_fec_parameters` (session model, as executed by `ofmodel`) returns OK, the session has n−k equations, duplicate-free,
+within 0..n−1, none with a single entry, staircase shaped, and its decoder state is initialised for k source symbols.  No hypothesis is
+left: the rounding function of the executable model is in the standard model (`C19_executable_rounding_in_standard_model`). -/
+theorem C05_configured_session {σ : Type} (IO : Api.SymIO σ) (g : Nat) (s : Api.Session σ)
     (p : Api.Params) (g' : Nat) (s' : Api.Session σ) (hc : s.codec = 3) (h : Api.setParamsStd IO g s p = (g', Api.Status.ok, s')) :
     s'.H.length = p.r ∧ MLComplete.WFH s'.H (p.k + p.r) ∧ (∀ row ∈ s'.H, row.length ≠ 1) ∧ Api.stairCheck p.k s'.H = true ∧
     s'.mlConsumed = s.mlConsumed ∧ ∃ it, s'.it = some it ∧ it.k = p.k :=
-  SessWF.configured_structure IO hgood g s p g' s' hc h
+  SessWF.configured_structure IO (C05_goodRand CSem.rne53 C19_executable_rounding_in_standard_model) g s p g' s' hc h
